@@ -8,7 +8,9 @@ from props import mdcommon
 
 ID = "C10"
 RULE = ("Pipelines over all node kinds (sync and async) with schedules as C02; each emission "
-        "carries zero, one or two metadata dictionaries (generated plan). Oracle, per node and "
+        "carries zero, one or two metadata dictionaries (generated plan); part 'batching-focus': "
+        "one batching/combining node, long runs, every second emission unlabelled. Oracle, per "
+        "node and "
         "per emitted element: the metadata argument seen by a recording child is a flat list of "
         "dicts and is, by object identity and order, exactly the documented function of the "
         "metadata of the observed inputs: unchanged for 1:1 nodes, concatenation in member order "
